@@ -61,7 +61,10 @@ namespace options
 
             if (!is_value() && !is_double_dash())
             {
-                if (!std::regex_match(arg, std::regex("-{1,2}[^-=]+[^=]*=?.*")))
+                // one or two dashes, followed by a character that is neither '-' nor '='
+                auto dashes = arg.find_first_not_of('-');
+
+                if (dashes == std::string::npos || dashes > 2 || arg[dashes] == '=')
                 {
                     raise<parsing_error>("The user input couldn't be parsed. (", arg, ")");
                 }
